@@ -9,6 +9,7 @@ from ..srcmodel import walk_local, norm, dotted, guards, enclosing_stmt, parent
 from . import common, forward
 from .c08 import calltime_defaults
 
+
 META = {
     'explanation': (
         "ESCAPE: the dict kept in the TRS cache flows only into the private "
@@ -82,10 +83,13 @@ def check(ctx):
     ctx.attempt(_globals_inventory)
     ctx.attempt(_class_writes)
     ctx.attempt(_mutable_defaults)
+    ctx.attempt(_class_level_containers)
     ctx.attempt(calltime_defaults)
     ctx.attempt(_escape)
     ctx.attempt(_cache_purity)
     ctx.attempt(forward.check_all, module_suffixes=('trs.trs', 'config.master_config'))
+    from .c14 import fresh_inputs      # (lazy: c14 imports this module)
+    ctx.attempt(fresh_inputs)
 
 
 def _module_mutables(ctx):
@@ -227,6 +231,50 @@ def _class_writes(ctx):
                               key=f"GLOBALS|{fi.qualname}|MasterConfig.{n.attr}")
 
 
+def _class_level_containers(ctx):
+    """A mutable container bound in a class body is shared by every instance.
+    If methods mutate it through `self.<name>` (append / extend / item store)
+    and no method rebinds `self.<name>` first, what one object collects shows
+    up in all later ones."""
+    n = 0
+    for ci in ctx.repo.classes.values():
+        if ci.module.name.startswith('pytrs.interface_tools'):
+            continue
+        shared = {}
+        for st in ci.node.body:
+            if isinstance(st, ast.Assign) and _mutable_literal(st.value):
+                for t in st.targets:
+                    if isinstance(t, ast.Name):
+                        shared[t.id] = st
+        if not shared:
+            continue
+        rebound, mutated = set(), {}
+        for m in ci.methods.values():
+            for x in ast.walk(m.node):
+                if isinstance(x, ast.Attribute) and norm(x.value) == 'self' and x.attr in shared:
+                    if isinstance(x.ctx, ast.Store):
+                        rebound.add(x.attr)
+                    par = x._parent
+                    if isinstance(par, ast.Attribute) and par.attr in MUT and isinstance(par._parent, ast.Call) \
+                            and par._parent.func is par:
+                        mutated.setdefault(x.attr, (m, par._parent))
+                    if isinstance(par, ast.Subscript) and par.value is x and isinstance(par.ctx, (ast.Store, ast.Del)):
+                        mutated.setdefault(x.attr, (m, par))
+        for name, st in sorted(shared.items()):
+            n += 1
+            if name in mutated and name not in rebound:
+                m, site = mutated[name]
+                ctx.violation('GLOBALS', f"{ci.name}.{name} (class-level container) is not mutated through instances",
+                              f"`{name} = {norm(st.value)[:30]}` is bound in the class body and {m.qualname} does "
+                              f"`{norm(site)[:60]}` on it, while no method rebinds self.{name}: every instance appends to the "
+                              f"same object, so results of earlier objects leak into later ones",
+                              key=f"GLOBALS|{ci.name}.{name}|shared-mutated", where=common.loc(m, site))
+            else:
+                ctx.ok('GLOBALS', f"{ci.name}.{name} (class-level container) is not mutated through instances")
+    if n == 0:
+        ctx.ok('GLOBALS', 'no class binds a mutable container in its body that instances mutate')
+
+
 def _mutable_defaults(ctx):
     n = 0
     for fi in ctx.repo.funcs.values():
@@ -344,6 +392,25 @@ def _cache_purity(ctx):
     ctx.shape('self.__trs_dict = TRS.__CACHE.get(new_trs, None)' in t
               and 'self.__trs_dict = TRS._cache_trs_to_dict(new_trs)' in t, 'PURITY',
               'TRS.trs setter: cache lookup by the complete string, else recompute')
+    # the lookup key is the string the entry was stored under: the raw input,
+    # not a tidied-up spelling of it (a hit would then return the break-down of
+    # a different string than a cold cache computes)
+    gets = [c for c in ast.walk(setter[0]) if isinstance(c, ast.Call) and isinstance(c.func, ast.Attribute)
+            and c.func.attr in ('get', '__getitem__') and '__CACHE' in norm(c.func.value) and c.args]
+    gets += [c for c in ast.walk(setter[0]) if isinstance(c, ast.Subscript) and '__CACHE' in norm(c.value)
+             and isinstance(c.ctx, ast.Load)]
+    sparam = [a.arg for a in setter[0].args.args if a.arg != 'self'][0]
+    for g in gets:
+        k = g.args[0] if isinstance(g, ast.Call) else g.slice
+        pv = flow.provenance(setter[0], k)
+        transformed = sorted(c for c in flow.prov_calls(pv) if c.split('.')[-1] in (
+            'strip', 'lower', 'upper', 'casefold', 'replace', 'lstrip', 'rstrip', 'title', 'format', 'sub'))
+        ctx.tri(norm(k) == sparam and not transformed, bool(transformed), 'PURITY',
+                'TRS.trs setter looks the cache up under the input string itself',
+                detail_bad=f"the lookup key `{norm(k)}` went through {transformed}, but entries are stored under the raw "
+                           f"string: '154n97w14 ' is an error TRS with a cold cache and a valid one once '154n97w14' was "
+                           f"seen, so the result depends on what was parsed before",
+                key="PURITY|TRS.trs.setter|lookup-key", where=f"{ci.module.relpath}:{g.lineno}")
     # default of _USE_CACHE irrelevant to results: only the write is gated (checked above);
     # nothing else reads _USE_CACHE
     readers = set()
